@@ -23,7 +23,7 @@ MUTABLE = (list, dict, set, collections.deque, bytearray)
 
 
 def bounds(tier):
-    return dict(tier=tier, schemas=len(_schemas(tier)), no_copy_subsets=32, leaves=["int", "date", "any"],
+    return dict(tier=tier, schemas=len(_schemas(tier)), no_copy_subsets=32, leaves=["int", "date", "any", "annotated SerializableType returning its own list"],
                 routes=["codec default_dialect", "Config.dialect", "call dialect", "orjson/msgpack/toml dialects"], max_depth=3)
 
 
@@ -38,7 +38,7 @@ def wrap(e):
 
 
 def _schemas(tier):
-    leaves = [L("int"), L("date"), L("any")]
+    leaves = [L("int"), L("date"), L("any"), L("abag")]
     d1 = [w for e in leaves for w in wrap(e)]
     d2 = [w for e in d1 for w in wrap(e)]
     out = d1 + d2
@@ -92,6 +92,8 @@ def containers(x, acc, any_ok=True):
     """ids of the mutable containers reachable from x."""
     if isinstance(x, MUTABLE):
         acc[id(x)] = x
+    if type(x).__name__ == "Bag" and hasattr(x, "items") and isinstance(x.items, list):
+        containers(x.items, acc)      # the list owned by an annotated SerializableType value
     if isinstance(x, dict):
         for v in x.values():
             containers(v, acc)
@@ -112,6 +114,8 @@ def predict(d, v, N, shared, anyzone, ctx):
     if k == "leaf":
         if d[1] == "any":
             containers(v, anyzone)
+        elif d[1] == "abag" and "list" in N:
+            containers(v.items, shared)     # _serialize() -> List[int]: packed like a List[int] position
         return
     if k in ("union", "opt"):
         for m in space.flat_members(d):
